@@ -176,15 +176,18 @@ def _k2_class(g, timeout):
 
 
 def _k2_hit(g, timeout):
-    """some non-integer power inside g has an operand with an eigenvalue on the negative real axis"""
+    """some non-integer power inside g has an operand with an eigenvalue on the negative real axis
+    (None: an operand could not be evaluated in time, so the question stays open)"""
+    unknown = False
     for operand, p in _frac_nodes(g):
         kind, W = forked(lambda: _npm(operand), timeout)
         if kind != "ok":
+            unknown = True
             continue
         ev = np.linalg.eigvals(W)
         if any(abs(l) > 1e-9 and abs(abs(np.angle(l)) - np.pi) < 1e-6 for l in ev):
             return True
-    return False
+    return None if unknown else False
 
 
 def _pushed_down_adjoint(g, timeout):
@@ -250,9 +253,14 @@ def oracle(spec, timeout=8.0):
                     return {"known": "K2", "classes": ["k2_signature"], "nontrivial": False}
             # the same defect seen through further wrappers (exp above the power, ...): the reported matrix is exactly what
             # pushing the adjoint through the non-integer power gives
-            if _k2_hit(g, timeout):
+            hit = _k2_hit(g, timeout)
+            if hit is None:
+                return {"inconclusive": "k2_class_undetermined"}  # a time-out of the backend, never a violation
+            if hit:
                 P = _pushed_down_adjoint(g, timeout)
-                if P is not None and P.shape == B.shape and np.allclose(B, P, atol=1e-6 * max(1.0, float(np.max(np.abs(P))))):
+                if P is None:
+                    return {"inconclusive": "k2_signature_unevaluated"}
+                if P.shape == B.shape and np.allclose(B, P, atol=1e-6 * max(1.0, float(np.max(np.abs(P))))):
                     return {"known": "K2", "classes": ["k2_signature_pushed_down"], "nontrivial": False}
         require(ok, lambda: f"dagger of {g}: matrix is not the conjugate transpose, max|d|={ref.maxdiff(B, A.conj().T):.3g}")
     elif m[0] == "c":
